@@ -262,6 +262,8 @@ type Ctx struct {
 	hashPath  string
 	start     time.Time
 	classSmp  map[string]bool
+	journal   *os.File // violations as they are found (JSON lines): what a child observed before it died is not lost
+	nJournal  int
 }
 
 func NewCtx(prop, tier string, seed int64, shard, nshards int, outBase string) *Ctx {
@@ -273,6 +275,7 @@ func NewCtx(prop, tier string, seed int64, shard, nshards int, outBase string) *
 	c.KnownSample = map[string]string{}
 	if outBase != "" {
 		c.hashPath = outBase + ".hashes"
+		c.journal, _ = os.OpenFile(outBase+".viol", os.O_WRONLY|os.O_CREATE|os.O_TRUNC, 0o644)
 		f, err := os.OpenFile(outBase+".last", os.O_RDWR|os.O_CREATE|os.O_TRUNC, 0o644)
 		if err == nil {
 			f.Truncate(4096)
@@ -350,6 +353,12 @@ func (c *Ctx) Violate(kind, detail, kf string) {
 			c.KnownSample[kf] = fmt.Sprintf("case %d: %s: %s", c.idx, kind, trunc(detail, 500))
 		}
 		// still recorded (first few) so that the driver can print it if the entry is not open
+	}
+	if kf == "" && c.journal != nil && c.nJournal < 20 {
+		c.nJournal++
+		if b, err := json.Marshal(Violation{c.Prop, c.idx, kind, trunc(detail, 3000), kf}); err == nil {
+			c.journal.Write(append(b, '\n'))
+		}
 	}
 	c.NViol++
 	if len(c.Violations) < 40 || (kf == "" && len(c.Violations) < 80) {
